@@ -78,6 +78,19 @@ def gen_cases(rng, tier):
         # constructors: both must render the model's text
         if rng.random() < 0.4:
             out[-1]["form"] = "ops"
+    # MOD(x, y) / the % operator, under every dialect (a dialect-specific infix rendering must bracket its operands): seeded/C02-19
+    for i in range(n // 12):
+        m = ["func", "MOD", [g0.num(rng.choice([0, 1, 2])), g0.num(rng.choice([0, 1]))], None]
+        r = rng.random()
+        t = m if r < 0.3 else (["arith", rng.choice(["add", "sub", "mul", "div"]), m, g0.num(1), None] if r < 0.55 else
+                               (["arith", rng.choice(["add", "sub", "mul", "div"]), g0.num(1), m, None] if r < 0.8 else
+                                ["basic", rng.choice(["eq", "gt", "lt"]), m, g0.num(1), None]))
+        c = dict(tf.STR_CTX)
+        if rng.random() < 0.85:
+            c["dia"] = rng.choice(sorted(tf.DIALECTS))
+        out.append({"kind": "ctx", "t": t, "c": c})
+        if rng.random() < 0.5:
+            out[-1]["form"] = "ops"
     # aggregate FILTER(WHERE ...): several criteria (one call or chained calls) are folded with Criterion.all
     for i in range(n // 10):
         calls = [[g0.boolean(rng.choice([0, 1, 2])) for _ in range(rng.choice([1, 1, 2, 3]))] for _ in range(rng.choice([1, 1, 2]))]
@@ -286,6 +299,8 @@ def shadow(t):
             return ["func", "ABS", [shadow(t[2][0])], None]
         if t[1] == "COALESCE" and len(t[2]) >= 1:
             return ["func", "COALESCE", [shadow(x) for x in t[2]], None]
+        if t[1] == "MOD" and len(t[2]) == 2:
+            return ["func", "MOD", [shadow(x) for x in t[2]], None]
         raise NotJudged("func")
     raise NotJudged(k)
 
@@ -373,10 +388,10 @@ def has_comment_intro(text):
     return False
 
 
-def sem_differs(sh, ops=False):
+def sem_differs(sh, ops=False, dia=None):
     """True if pypika's rendering of the shadow tree (built with the constructors, or with operators and Term methods
     when `ops`) and the explicit text disagree on some row (or pypika's text fails)."""
-    ptxt = tf.render_impl(sh, tf.STR_CTX, ops=ops)
+    ptxt = tf.render_impl(sh, _jctx(dia), ops=ops)
     if ptxt.startswith("!"):
         raise NotJudged("render")
     try:
@@ -507,12 +522,17 @@ def classify(n):
     return "other"
 
 
-def minimal_failing(sh, ops=False):
+def _jctx(dia):
+    """the judging context: plain string conventions, plus the dialect of the case (some renderings depend on it)"""
+    return dict(tf.STR_CTX, dia=dia) if dia else tf.STR_CTX
+
+
+def minimal_failing(sh, ops=False, dia=None):
     """deepest node whose own rendering disagrees while all its children agree"""
     for c in children(sh):
         try:
-            if sem_differs(c, ops) or has_comment_intro(tf.render_impl(c, tf.STR_CTX, ops=ops)):
-                return minimal_failing(c, ops)
+            if sem_differs(c, ops, dia) or has_comment_intro(tf.render_impl(c, _jctx(dia), ops=ops)):
+                return minimal_failing(c, ops, dia)
         except NotJudged:
             continue
     return sh
@@ -532,6 +552,7 @@ def _raw_leaf_has_intro(t):
 def judge(case, text):
     t = case["t"]
     ops = case.get("form") == "ops"
+    dia = (case_ctx(case) or {}).get("dia")
     try:
         star = has_star_operand(t)
     except Exception:      # shapes outside the judged language (sub-query containers ...): judged below or not at all
@@ -547,13 +568,13 @@ def judge(case, text):
     except NotJudged as e:
         return {"verdict": "not-judged", "why": str(e)}
     try:
-        d = sem_differs(sh, ops)
+        d = sem_differs(sh, ops, dia)
     except NotJudged as e:
         return {"verdict": "not-judged", "why": str(e)}
-    ci = has_comment_intro(tf.render_impl(sh, tf.STR_CTX, ops=ops))
+    ci = has_comment_intro(tf.render_impl(sh, _jctx(dia), ops=ops))
     if d or ci:
-        m = minimal_failing(sh, ops)
-        return {"verdict": "differs", "detail": d or "comment introducer in %r" % tf.render_impl(sh, tf.STR_CTX, ops=ops),
+        m = minimal_failing(sh, ops, dia)
+        return {"verdict": "differs", "detail": d or "comment introducer in %r" % tf.render_impl(sh, _jctx(dia), ops=ops),
                 "class": classify(m), "node": [label(m)] + [label(c) for c in children(m)], "min": m}
     return {"verdict": "same"}
 
